@@ -108,7 +108,7 @@ harness('hash_plain', 'engines/seq/hash.cpp', 'gcc-plain-c11', libs='-lrapidchec
 reg(Prop('C11', 'exploration', [
     Sub('rand', 'hash', shards=(10, 16), cases=(600, 20000), maxsize=(100, 300), env={'VERIF_SUB': 'rand'}),
     Sub('grid', 'hash', shards=(3, 8), cases=(1, 1), env={'VERIF_SUB': 'grid'}),
-    Sub('large', 'hash_plain', shards=(6, 14), cases=(1, 1), env={'VERIF_SUB': 'large'}, timeout=(900, 3600)),
+    Sub('large', 'hash_plain', shards=(7, 14), cases=(1, 1), env={'VERIF_SUB': 'large'}, timeout=(900, 3600)),
 ], rule='per algorithm (11): total lengths and chunk boundaries generated relative to the block size b (totals 0,1,b-9,b-8,b-1,b,b+1,2b-9..3b+5, random<=20000; chunkings single, bytewise, '
         '(buffered, chunk) grids, empty chunks interleaved, random), histories mixing update/get_string/get_digest(exact-size and too-small buffers)/reset/no-op updates; '
         'grid sub-run: every buffered fill 0..b-1 x 7 chunk lengths x 5 tail lengths per algorithm (exhaustive for that grid); large sub-run: one single update of 2^32(+k) bytes '
